@@ -542,7 +542,7 @@ Proof.
   pose proof (transform_camel_desc _ _ _ _ _ _ Hf Hb Hcl Hwf Hbi Hsort H) as Hrd.
   unfold transform in H. destruct (clone fuel m s) as [[m1 cl]| | |] eqn:Hc; simpl in H; try discriminate.
   destruct (clone_redesc _ _ _ _ _ Hf Hb Hcl Hwf Hbi Hc) as (Hf1 & Hb1 & Hwf1 & _).
-  destruct (clone_preserved _ _ _ _ _ Hf Hb Hcl Hwf Hbi Hc) as ((_ & _ & Hback & Htres) & Hfw).
+  destruct (clone_preserved _ _ _ _ _ Hf Hb Hcl Hwf Hbi Hc) as ((_ & _ & Hback & Htres) & Hfw & _ & _).
   destruct (clone_owned _ _ _ _ _ Hf Hb Hcl Hwf Hbi Hc) as (Fown & _).
   assert (Hex : forall x v, mget m x = Some v -> mget m1 x = Some v).
   { intros x v Hx. rewrite (fr_frame _ _ _ Fown); [exact Hx|].
